@@ -426,7 +426,13 @@ async def get_outputs(world: World, sim: SimRunner):
         # pushed forward below, but it is faster to just save everything
         # than filter out this data here.
         if sim.outputs is not None:
-            sim.outputs[output_time] = data
+            # Store a copy: an in-process simulator may keep the dict
+            # that it returns and update it in place in its next step,
+            # which must not change what is cached for this time.
+            sim.outputs[output_time] = {
+                key: dict(val) if isinstance(val, dict) else val
+                for key, val in data.items()
+            }
 
         # Push forward certain data
         for (src_eid, src_attr), destinations in sim.output_to_push.items():
